@@ -193,3 +193,7 @@ def run(chk, replay):
                 chk.traces += 1
                 if v:
                     chk.violation(util.sig_str(sc["sig"], "gated"), v, {"sc": sc, "cfgseed": cfgseed, "sigs": "gated"})
+    # code -> spec: combines recorded on large generated pairs with independent layouts (Combine!CombineSpec in OpTrace.tla);
+    # a strain in between changes the level count / field sets so that refusals and name clashes occur
+    from harness import optrace
+    optrace.phase(chk, ["combine", "combine", "combine", "strain"], "combine on large inputs", 60, 600, twod=False, nops=4)
